@@ -281,6 +281,8 @@ def run(ck):
                     hists = [h for h in hists if len(h) == depth]
                     if ck.quick:
                         hists = hists[ck.seed % 3 :: 3]
+                    else:
+                        hists = hists[(ck.seed + d) % 2 :: 2]  # 40 of the 81 depth-4 histories per configuration
                     for h in hists:
                         cases.append(dict(sampler=kind, T=T, limits=limits, d=d, history=h, bound=bound))
     ck.run_cases("history", cases, chunk=2)
